@@ -79,9 +79,6 @@ func (P *Prog) ifaceContractsFor(fn *ssa.Function) []*Contract {
 		}
 		if types.Implements(rt, iface) {
 			out = append(out, c)
-		} else if p, isP := rt.(*types.Pointer); !isP && types.Implements(types.NewPointer(rt), iface) {
-			_ = p
-			out = append(out, c)
 		}
 	}
 	return out
@@ -166,6 +163,13 @@ func (P *Prog) buildVC(fn *ssa.Function, opts *VerifyOpts, houdini bool) (res *F
 	for i, fv := range fn.FreeVars {
 		env.vars[fv.Name()] = free[i]
 	}
+	if c != nil && len(c.ParamsOv) > 0 {
+		for i, n := range contractParamNames(c, fn.Signature, false) {
+			if i < len(params) {
+				env.vars[n] = params[i]
+			}
+		}
+	}
 	dummy := &Frame{ex: ex, fn: fn, vals: map[ssa.Value]Val{}}
 	env.fr = dummy
 	// requires
@@ -209,6 +213,12 @@ func (P *Prog) buildVC(fn *ssa.Function, opts *VerifyOpts, houdini bool) (res *F
 	// type invariants of parameters
 	for i, p := range fn.Params {
 		P.assumeTypeInv(ex, st0, params[i], p.Type(), dummy)
+		for _, cl := range P.db.ParamInv[typeName(p.Type())] {
+			e2 := ex.newEnv(st0, st0, dummy)
+			e2.pkg = contractPkgOf(typeName(p.Type()))
+			e2.vars["this"] = params[i]
+			ex.vc.assert(safeEval(e2, cl))
+		}
 	}
 	// run
 	fr, exit, results := ex.runFunc(fn, params, free, st0, false, 0)
@@ -292,41 +302,67 @@ func safeEval(env *SpecEnv, c Clause) (t Term) {
 	return env.evalBool(c.E)
 }
 
-func (P *Prog) typeInvFor(t types.Type) (string, []Clause) {
-	if p, ok := under(t).(*types.Pointer); ok {
-		tn := typeName(p.Elem())
-		return tn, P.db.TypeInv[tn]
+
+// invTargets lists (pointer value, type name, clauses) for a pointer-typed
+// value: the pointee type's own invariants plus those of embedded structs.
+type invTarget struct {
+	v  Val
+	tn string
+	cs []Clause
+}
+
+func (P *Prog) invTargets(ex *Exec, v Val, t types.Type) []invTarget {
+	pt, ok := under(t).(*types.Pointer)
+	if !ok || len(v.L) == 0 {
+		return nil
 	}
-	return "", nil
+	var out []invTarget
+	var walk func(v Val, el types.Type, depth int)
+	walk = func(v Val, el types.Type, depth int) {
+		tn := typeName(el)
+		if cs := P.db.TypeInv[tn]; len(cs) > 0 {
+			out = append(out, invTarget{v, tn, cs})
+		}
+		st, ok := under(el).(*types.Struct)
+		if !ok || depth > 6 {
+			return
+		}
+		for i := 0; i < st.NumFields(); i++ {
+			f := st.Field(i)
+			if f.Embedded() && isStruct(f.Type()) {
+				loc := ex.ptrLoc(v)
+				loc.Path += "." + f.Name()
+				walk(Val{T: types.NewPointer(f.Type()), L: loc.Idx, P: &loc}, f.Type(), depth+1)
+			}
+		}
+	}
+	walk(v, pt.Elem(), 0)
+	return out
 }
 
 func (P *Prog) assumeTypeInv(ex *Exec, st *State, v Val, t types.Type, fr *Frame) {
-	tn, cs := P.typeInvFor(t)
-	if len(cs) == 0 {
-		return
-	}
-	env := ex.newEnv(st, st, fr)
-	env.pkg = tn[:strings.Index(tn, ".")]
-	env.vars["this"] = v
-	for _, c := range cs {
-		ex.vc.assert(Implies(Ne(v.L[0], Int(0)), safeEval(env, c)))
+	for _, it := range P.invTargets(ex, v, t) {
+		env := ex.newEnv(st, st, fr)
+		env.pkg = it.tn[:strings.Index(it.tn, ".")]
+		env.vars["this"] = it.v
+		for _, c := range it.cs {
+			ex.vc.assert(Implies(Ne(v.L[0], Int(0)), safeEval(env, c)))
+		}
 	}
 }
 
 func (P *Prog) checkTypeInv(ex *Exec, fr *Frame, st *State, v Val, t types.Type) {
-	tn, cs := P.typeInvFor(t)
-	if len(cs) == 0 {
-		return
-	}
-	env := ex.newEnv(st, ex.entry, fr)
-	env.pkg = tn[:strings.Index(tn, ".")]
-	env.vars["this"] = v
-	for i, c := range cs {
-		lbl := c.Label
-		if lbl == "" {
-			lbl = fmt.Sprintf("%d", i)
+	for _, it := range P.invTargets(ex, v, t) {
+		env := ex.newEnv(st, ex.entry, fr)
+		env.pkg = it.tn[:strings.Index(it.tn, ".")]
+		env.vars["this"] = it.v
+		for i, c := range it.cs {
+			lbl := c.Label
+			if lbl == "" {
+				lbl = fmt.Sprintf("%d", i)
+			}
+			fr.oblige(st, "typeinv", it.tn+"/"+lbl, Implies(Ne(v.L[0], Int(0)), safeEval(env, c)), 0)
 		}
-		fr.oblige(st, "typeinv", tn+"/"+lbl, Implies(Ne(v.L[0], Int(0)), safeEval(env, c)), 0)
 	}
 }
 
